@@ -125,7 +125,7 @@ class Runner:
                 if settle and after.get(i) is not None:
                     ctl["delay"] = settle
             else:
-                ctl["delay"] = order.index(i) * delta
+                ctl["delay"] = order.index(i) * case.get("_delta", delta)
             jobs.append(P.delayed(job)(case["args"][i], i, ctl=ctl))
         keys = [key_of(k) for k in case["keys"]]
         kw = {}
@@ -290,7 +290,8 @@ def _drive(ck, book, cases, backend, impose, procs=1, **kw):
     else:
         from concurrent.futures import ProcessPoolExecutor
         _pmod()  # import accelforge once, before forking
-        chunks = [(base + "_%d" % k, items[k::procs]) for k in range(procs)]
+        nch = max(procs, len(items) // 6)
+        chunks = [(base + "_%d" % k, items[k::nch]) for k in range(nch)]
         with ProcessPoolExecutor(procs) as ex:
             results = [r for part in ex.map(_drive_chunk, chunks) for r in part]
         results.sort(key=lambda r: r[0])
@@ -302,6 +303,12 @@ def _drive(ck, book, cases, backend, impose, procs=1, **kw):
                 ck.impl_error_sample = {"case": {"case": case, "backend": backend, "how": how}, "traceback": err}
             continue
         book.add(case, backend, dict(how, **kw), got, events)
+
+
+def _delta(c):
+    """sleep unit so that one call sleeps about 0.25 s in total"""
+    n, w = c["n"], c["w"]
+    return round(min(0.004, max(0.0003, 0.25 * w / max(1.0, n * (n - 1) / 2.0))), 5)
 
 
 def _warm(backend, w, with_dict):
@@ -371,11 +378,14 @@ def run(ck: Check):
     t0 = time.time()
     # threading backend: no batching, in-order dispatch -> TLC's schedules are imposed exactly
     _drive(ck, book, exh + sim, "threading", "barrier", procs=8)
+    _t(ck, "threading/barrier done: %d calls" % len(book.items))
     # arbitrary permutations (TLC's rank vectors): exact where every job has its own worker,
     # as sleep times otherwise
     _drive(ck, book, [c for c in sim if 2 <= c["n"] <= c["w"]], "threading", "barrier-rank", procs=8)
-    _drive(ck, book, [c for c in sim if c["n"] > c["w"]][: (600 if thorough else 40)], "threading", "sleep",
-           procs=8, delta=0.001)
+    _t(ck, "threading/barrier-rank done: %d calls" % len(book.items))
+    for c in [c for c in sim if c["n"] > c["w"]][: (600 if thorough else 40)]:
+        c["_delta"] = _delta(c)
+    _drive(ck, book, [c for c in sim if "_delta" in c], "threading", "sleep", procs=8)
     ck.extra["wall_threading_s"] = round(time.time() - t0, 1)
     _t(ck, "threading backend done: %d calls" % len(book.items))
 
@@ -399,9 +409,8 @@ def run(ck: Check):
         mine = [c for c in sim if ok(c) and c["n"] >= 2]
         rng.shuffle(mine)
         for c in mine[:per_w]:
-            n = c["n"]
-            delta = min(0.004, max(0.0003, 0.25 * w / max(1.0, n * (n - 1) / 2.0)))
-            _drive(ck, book, [c], "loky", "sleep", delta=round(delta, 5))
+            c["_delta"] = _delta(c)
+        _drive(ck, book, mine[:per_w], "loky", "sleep")
         # exact orders where every job gets its own worker at once (no batching can interfere)
         pool = [c for c in exh if ok(c) and c["n"] <= w]
         rng.shuffle(pool)
